@@ -215,7 +215,7 @@ class Recorder:
 
     def live(self, depth=2):
         """False when the innermost generator of the code under test on the stack is not being run by twisted's
-        `_inlineCallbacks`: it is an abandoned operation whose generator the garbage collector is closing (its
+        `_inlineCallbacks` (`gen.send`, or `Failure.throwExceptionIntoGenerator`): it is an abandoned operation whose generator the garbage collector is closing (its
         `finally` blocks then run in the middle of whatever else is executing, in THAT context) -- nothing it does
         belongs to the current frame"""
         f = sys._getframe(depth)
@@ -230,7 +230,7 @@ class Recorder:
                     mine = self._file_cache[fn] = os.path.realpath(fn) in self.src_files
                 if mine:
                     b = f.f_back
-                    return b is not None and b.f_code.co_name == "_inlineCallbacks"
+                    return b is not None and b.f_code.co_name in ("_inlineCallbacks", "throwExceptionIntoGenerator")
             f = f.f_back
         return True
 
@@ -556,8 +556,13 @@ class _Field:
     def __get__(self, obj, objtype=None):
         if obj is None:
             return self
+        d = obj.__dict__
         try:
-            return obj.__dict__[self.slot]
+            return d[self.slot]
+        except KeyError:
+            pass
+        try:
+            return d[self.field]                  # a node built before the descriptor was installed
         except KeyError:
             raise AttributeError(self.field)
 
@@ -572,6 +577,7 @@ class _Field:
                 value.__class__ = cls                                  # a harness subclass (schedcase._VList): keep identity
             value.__dict__["_sk_owner"] = obj
             value.__dict__["_sk_field"] = self.field
+        obj.__dict__.pop(self.field, None)
         obj.__dict__[self.slot] = value
 
 
@@ -604,7 +610,9 @@ def sequential_acts(ctx, nrandom):
     """the canned programs of vnetcase (every merge case in both directions, forwarding, refusals, stale handles) and
     `nrandom` generated ones, on the real code, recorded"""
     from . import vnetcase as VC
+    from . import schedcase as SC
     REC.install()
+    SC._CUR = None            # schedcase's lock monitor must not look at a retired network while vnetcase runs
     progs = [(name, p) for name, p in VC.corpus()] + [(name, p) for name, p in VC.reuse_corpus()]
     acts, nops, kinds = [], 0, {}
     import collections
@@ -634,7 +642,51 @@ def sequential_acts(ctx, nrandom):
     return acts, nops, len(progs) + nrandom
 
 
-def concurrent_acts(ctx, prop, nsched):
+def directed_acts():
+    """entry methods that neither program generator reaches: the new gate `apply_S` (local and remote simulator),
+    the two NetQASM send wrappers (local / third-node simulator, unknown target), `new_qubit_inreg`,
+    `new_register` / `delete_register` called as operations"""
+    import random
+    REC.install()
+    acts = []
+    REC.start(tag={"directed": "apply_S, netqasm_send_qubit, netqasm_send_epr_half, new_qubit_inreg, registers"})
+    try:
+        net = S.SimNet(["Alice", "Bob", "Charlie"], max_qubits=3, rng=random.Random(0))
+        net.set_backoff(lambda a, b: 2.5)
+        cl = {n: net.client(n) for n in net.names}
+
+        def go(d):
+            return net.run(d)
+
+        def ref(node, k=-1):
+            return go(cl[node].callRemote("get_virtual_ref", net.nodes[node].virtQubits[k].num))
+        go(cl["Alice"].callRemote("new_qubit"))
+        go(ref("Alice").callRemote("apply_S"))                                           # local simulator
+        go(cl["Alice"].callRemote("send_qubit", ref("Alice"), "Bob"))
+        go(ref("Bob").callRemote("apply_S"))                                             # remote simulator
+        go(cl["Bob"].callRemote("netqasm_send_qubit", net.nodes["Bob"].virtQubits[-1].num, "Charlie", 0, 0))   # third node
+        go(cl["Charlie"].callRemote("new_qubit"))
+        go(cl["Charlie"].callRemote("netqasm_send_qubit", net.nodes["Charlie"].virtQubits[-1].num, "Alice", 0, 0))  # local
+        go(cl["Charlie"].callRemote("netqasm_send_qubit", net.nodes["Charlie"].virtQubits[-1].num, "Nowhere", 0, 0))
+        go(cl["Charlie"].callRemote("netqasm_send_epr_half", net.nodes["Charlie"].virtQubits[-1].num, "Bob", 0, 0, [0] * 8))
+        go(cl["Alice"].callRemote("new_qubit"))
+        go(cl["Alice"].callRemote("netqasm_send_epr_half", net.nodes["Alice"].virtQubits[-1].num, "Nowhere", 0, 0, [0] * 8))
+        go(cl["Alice"].callRemote("netqasm_send_epr_half", None, "Bob", 0, 0, [0] * 8))
+        nd = net.nodes["Bob"]
+        reg = nd.remote_new_register()
+        for _ in range(4):                                                               # the last ones are refused: full
+            d = nd.remote_new_qubit_inreg(reg)
+            d.addErrback(lambda f: None)
+            net.settle()
+        empty = nd.remote_new_register()
+        nd.remote_delete_register(empty)
+        net.settle()
+    finally:
+        acts += REC.stop()
+    return acts
+
+
+def concurrent_acts(ctx, prop, nsched, budget=6.0):
     """a sample of concurrent schedules of schedcase: -> (activations of schedules the C04 oracle and the monitors found
     clean, activations of the others, number of schedules, number of clean ones)"""
     from . import schedcase as SC
@@ -649,7 +701,7 @@ def concurrent_acts(ctx, prop, nsched):
             cases.append({"name": name, "nodes": SC.NODES, "max_qubits": 5, "prefix": prefix})
     rng.shuffle(cases)
     t0 = time.time()
-    budget = float(os.environ.get("VERIF_SKELTRACE_BUDGET", "6"))
+    budget = float(os.environ.get("VERIF_SKELTRACE_BUDGET", budget))
     per_case = max(4, nsched // max(1, len(cases)))
     for case in cases:
         if n >= nsched or time.time() - t0 > budget:
@@ -697,7 +749,8 @@ def tie(ctx, res, prop):
     t0 = time.time()
     lean_ok = getattr(ctx, "lean_ok", True)
     seq, nops, nprogs = sequential_acts(ctx, ctx.scale(12, 80))
-    clean, other, nsched, nclean = concurrent_acts(ctx, prop, ctx.scale(160, 1500))
+    seq += directed_acts()
+    clean, other, nsched, nclean = concurrent_acts(ctx, prop, ctx.scale(160, 1500), budget=ctx.scale(6.0, 60.0))
     t1 = time.time()
     per_method = {}
     for a in seq + clean + other:
@@ -716,11 +769,11 @@ def tie(ctx, res, prop):
     for ln, ans, tag, cnt in rej2[:4]:
         res.notes.append("trace not accepted in a schedule that also shows an anomaly (lock time-out path, foreign "
                          "release, unguarded mutation, hang ...; not a tie break): %s -> %s" % (ln, ans))
-    missing = sorted(set(REC.tracked.values()) - set(per_method))
+    missing = sorted(m for m in set(REC.tracked.values()) - set(per_method) if m.startswith(("remote_", "sq_")))
     msg = ("skeleton trace acceptance: %d sequential programs (%d ops) + %d concurrent schedules (%d clean): %d activations "
            "of %d translated methods compared (%d distinct traces), %d rejected; %d activations of anomalous schedules "
            "(%d distinct, %d not accepted: notes); compared as a prefix: %s; release-if-locked found the lock free %d times; "
-           "methods never activated: %s; %.1f s run + %.1f s Lean" % (
+           "entry methods never activated: %s; %.1f s run + %.1f s Lean" % (
                nprogs, nops, nsched, nclean, n1, len(per_method), d1, len(rej1), n2, d2, len(rej2),
                dict(why1 + why2) or "none", REC.noop_releases, ",".join(missing) or "none", t1 - t0, time.time() - t1))
     res.notes.append(msg)
